@@ -202,7 +202,8 @@ def validate_trace(module, trace_path, workdir, shards=None, per_shard=300, time
             cuts.append(s)
     cuts.append(len(lines))
     pieces = [(cuts[i], cuts[i + 1]) for i in range(len(cuts) - 1) if cuts[i] < cuts[i + 1]]
-    cfg = cfg_text or (BIG_CONSTS + 'SPECIFICATION Spec\nCHECK_DEADLOCK FALSE\n')
+    cfg = cfg_text or (BIG_CONSTS + ('  KeyBytes <- TraceKeyBytes\n  AddrOfIndex <- TraceAddrOfIndex\n' if module == 'Trace_World' else '')
+                       + 'SPECIFICATION Spec\nCHECK_DEADLOCK FALSE\n')
 
     def one(idx_piece):
         idx, (a, b) = idx_piece
@@ -213,7 +214,11 @@ def validate_trace(module, trace_path, workdir, shards=None, per_shard=300, time
         off = 0
         if reset_kind and ('"k":"%s"' % reset_kind) not in lines[a]:
             prev = json.loads(tla_lines[a - 1])
-            body = [json.dumps({'k': reset_kind, 'world': prev['post'], 'h': 'shard start'}, separators=(',', ':'))] + body
+            k = a - 1
+            while ('"k":"%s"' % reset_kind) not in lines[k]:
+                k -= 1
+            body = [json.dumps({'k': reset_kind, 'world': prev['post'], 'bytes': json.loads(lines[k]).get('bytes', {}),
+                                'h': 'shard start'}, separators=(',', ':'))] + body
             off = 1
         with open(tp, 'w') as f:
             f.write('\n'.join(body) + '\n')
@@ -247,8 +252,10 @@ def strip_for_tla(line):
     if '"raw"' not in line and '"setup"' not in line and '"text"' not in line:
         return line
     e = json.loads(line)
-    for k in ('raw', 'setup', 'names', 'users', 'accounts', 'bytes'):
+    for k in ('raw', 'setup', 'names', 'users', 'accounts'):
         e.pop(k, None)
+    if e.get('k') != 'reset':
+        e.pop('bytes', None)
     for k in ('res', 'ans'):
         if isinstance(e.get(k), dict):
             e[k].pop('text', None)
